@@ -51,6 +51,9 @@ func genSpec(r *rand.Rand, i int, thorough bool) spec {
 		Truncators: 1 + r.IntN(2),
 		Perturb:    []float64{0.3, 0.5, 0.8}[r.IntN(3)],
 	}
+	if i%2 == 1 {
+		sp.MaxConc = sp.Committers + 2 // small "max concurrency range": 3–10
+	}
 	if thorough {
 		sp.NTx = 40 + r.IntN(110)
 		sp.MaxCuts = 16
